@@ -82,7 +82,7 @@ func SimC04(c *CheckCtx, i int, r *Rng) error {
 		gens = RealGens(names)
 		c.Env.Stats.Add("probe/real-generators-world", 1)
 	}
-	if !real && i%7 == 5 {
+	if !real && i%5 == 2 {
 		// import names that have to be disambiguated: aliases must not depend on map order or on what
 		// the process generated before
 		m, names, gens = clashWorld(r, base)
